@@ -1,10 +1,10 @@
-(** C15: eval_number and eval_f64 agree exactly on the ring fragment (+ - * unary minus over literals and the
-    placeholder) whenever every intermediate value of the f64 evaluation is finite, below 2^53 in magnitude
+(** C15: eval_number and eval_f64 agree exactly on the arithmetic fragment (+ - * / % unary minus over literals and
+    the placeholder) whenever every intermediate value of the f64 evaluation is finite, below 2^53 in magnitude
     and not a negative zero. *)
 From Coq Require Import ZArith Reals Lia Lra Bool List Floats.SpecFloat.
 From Flocq Require Import Core.Core IEEE754.BinarySingleNaN.
 From SC Require Import Base.Res Base.F64 Base.RustInt Base.Num Base.Oracle Lang.Syntax Eval.Common Eval.EvalF64 Eval.EvalNum
-  Proofs.NumberFrom.
+  Proofs.NumberFrom Proofs.FmodFacts Proofs.Agree.
 Import ListNotations.
 Local Open Scope R_scope.
 
@@ -159,6 +159,54 @@ Proof.
       unfold F64.prec, F64.emax in *. rewrite Sz, Sn. destruct (Z.ltb_spec z 0), (Z.ltb_spec (- z) 0); simpl; try reflexivity; lia.
 Qed.
 
+
+Lemma of_Z_nonzero z : (Z.abs z < 2 ^ 53)%Z -> z <> 0%Z -> forall s, f64_of_Z z <> B754_zero s.
+Proof.
+  intros Hz Nz s E. destruct (of_Z_small z Hz) as [Rz _]. rewrite E in Rz. simpl in Rz.
+  apply Nz. apply eq_IZR. symmetry. exact Rz.
+Qed.
+
+Lemma div_agree x y : (Z.abs x < 2 ^ 53)%Z -> (Z.abs y < 2 ^ 53)%Z -> y <> 0%Z -> Z.rem x y = 0%Z ->
+  Fine (fdiv (f64_of_Z x) (f64_of_Z y)) -> fdiv (f64_of_Z x) (f64_of_Z y) = f64_of_Z (Z.quot x y).
+Proof.
+  intros Hx Hy Ny Hr HF. destruct (of_Z_small x Hx) as [Rx [Fx Sx]]. destruct (of_Z_small y Hy) as [Ry [Fy Sy]].
+  set (q := Z.quot x y). assert (Eq : x = (y * q)%Z) by (unfold q; pose proof (Z.quot_rem' x y); lia).
+  assert (Hq : (Z.abs q <= 2 ^ 63)%Z).
+  { assert (Z.abs x = Z.abs y * Z.abs q)%Z by (rewrite <- Z.abs_mul; congruence). nia. }
+  assert (Qv : IZR x / IZR y = IZR q).
+  { rewrite Eq, mult_IZR. field. apply not_0_IZR. exact Ny. }
+  pose proof (Bdiv_correct 53 1024 Hprec Hemax mode_NE (f64_of_Z x) (f64_of_Z y)) as H.
+  unfold F64.prec, F64.emax in *. rewrite Rx, Ry, Qv in H.
+  specialize (H (not_0_IZR _ Ny)).
+  rewrite Rlt_bool_true in H by (now apply rnd_bound).
+  destruct H as [H1 [H2 H3]]. rewrite Fx in H2.
+  apply is_of_Z; auto.
+  destruct (Z.eq_dec q 0) as [E0|N0].
+  - rewrite E0. apply zero_sign; [exact HF|]. unfold fdiv, F64.prec, F64.emax in *. rewrite H1, E0. apply round_0; auto with typeclass_instances.
+  - unfold fdiv, F64.prec, F64.emax. rewrite H3, Sx, Sy by (apply finite_not_nan; exact H2).
+    destruct (Z.ltb_spec x 0), (Z.ltb_spec y 0), (Z.ltb_spec q 0); simpl; try reflexivity; nia.
+Qed.
+
+Lemma mod_agree x y : (Z.abs x < 2 ^ 53)%Z -> (Z.abs y < 2 ^ 53)%Z -> y <> 0%Z ->
+  Fine (fmod (f64_of_Z x) (f64_of_Z y)) -> fmod (f64_of_Z x) (f64_of_Z y) = f64_of_Z (Z.rem x y).
+Proof.
+  intros Hx Hy Ny HF. destruct (of_Z_small x Hx) as [Rx [Fx Sx]]. destruct (of_Z_small y Hy) as [Ry [Fy Sy]].
+  destruct (fmod_spec (f64_of_Z x) (f64_of_Z y) Fx Fy (of_Z_nonzero y Hy Ny)) as [H1 [H2 H3]].
+  set (r := Z.rem x y). assert (Er : x = (y * Z.quot x y + r)%Z) by (unfold r; apply Z.quot_rem'; exact Ny).
+  assert (Hr : (Z.abs r < Z.abs y)%Z) by (unfold r; apply Z.rem_bound_abs; exact Ny).
+  assert (Hr53 : (Z.abs r < 2 ^ 53)%Z) by lia.
+  unfold F64.prec, F64.emax in *. rewrite Rx, Ry, Ztrunc_div in H1 by exact Ny.
+  assert (Hv : B2R64 (fmod (f64_of_Z x) (f64_of_Z y)) = IZR r).
+  { rewrite H1. rewrite Er at 1. rewrite plus_IZR, mult_IZR. ring. }
+  apply is_of_Z; auto; try lia.
+  - rewrite Hv. symmetry. apply round_generic; auto with typeclass_instances. now apply small_format.
+  - destruct (Z.eq_dec r 0) as [E0|N0].
+    + rewrite E0. apply zero_sign; [exact HF|]. rewrite Hv, E0. reflexivity.
+    + transitivity (Bsign (f64_of_Z x)); [exact H3|]. transitivity (x <? 0)%Z; [exact Sx|].
+      assert (Sg : (0 <= x -> 0 <= r)%Z /\ (x <= 0 -> r <= 0)%Z) by (unfold r; split; [apply Z.rem_nonneg|apply Z.rem_nonpos]; exact Ny).
+      destruct (Z.ltb_spec x 0), (Z.ltb_spec r 0); try reflexivity; lia.
+Qed.
+
 (** ** Trees *)
 Fixpoint fl (a : node number) : node f64 :=
   match a with
@@ -168,12 +216,12 @@ Fixpoint fl (a : node number) : node f64 :=
   | NAgg g l => NAgg g (map fl l)
   end.
 
-(** the ring fragment: literals / placeholder, unary minus, + - * *)
+(** the arithmetic fragment: literals / placeholder, unary minus, + - * / % *)
 Fixpoint ring_lang (a : node number) : bool :=
   match a with
   | NNum _ => true
   | NUn UNegative x => ring_lang x
-  | NBin b x y => match b with BAdd | BSubtract | BMultiply => ring_lang x && ring_lang y | _ => false end
+  | NBin b x y => match b with BAdd | BSubtract | BMultiply | BDivide | BModulo => ring_lang x && ring_lang y | _ => false end
   | _ => false
   end.
 
@@ -226,18 +274,35 @@ Section Trees.
         * symmetry. now apply neg_agree.
         * reflexivity.
       + subst vx. eexists; eexists; (split; [reflexivity|split; [reflexivity|reflexivity]]).
-    - assert (Hb : (b = BAdd \/ b = BSubtract \/ b = BMultiply) /\ ring_lang x = true /\ ring_lang y = true).
-      { destruct b; try discriminate; apply andb_prop in HL as [H1 H2]; auto. }
+    - assert (Hb : (b = BAdd \/ b = BSubtract \/ b = BMultiply \/ b = BDivide \/ b = BModulo) /\ ring_lang x = true /\ ring_lang y = true).
+      { destruct b; try discriminate; apply andb_prop in HL as [H1 H2]; repeat split; auto 6. }
       destruct Hb as [Hb [Lx Ly]]. destruct HF as [[v [Ev Fv]] [HFx HFy]].
       destruct (IHx Lx HFx) as [nx [vx [Enx [Efx Hx]]]]. destruct (IHy Ly HFy) as [ny [vy [Eny [Efy Hy]]]].
       assert (Fx : Fine vx) by (destruct (AllFine_head _ HFx) as [v' [E' F']]; rewrite Efx in E'; inversion E'; subst; exact F').
       assert (Fy : Fine vy) by (destruct (AllFine_head _ HFy) as [v' [E' F']]; rewrite Efy in E'; inversion E'; subst; exact F').
       simpl in Ev. rewrite Efx, Efy in Ev. simpl in Ev. rewrite Enx, Eny, Efx, Efy. simpl. subst vx vy.
-      destruct Hb as [->|[->| ->]]; simpl in *; inversion Ev; subst v; clear Ev;
-        eexists; eexists; (split; [reflexivity|split; [reflexivity|]]).
-      + apply (arith_agree checked_add Z.add fadd); auto. intros; now apply add_agree.
-      + apply (arith_agree checked_sub Z.sub fsub); auto. intros; now apply sub_agree.
-      + apply (arith_agree checked_mul Z.mul fmul); auto. intros; now apply mul_agree.
+      destruct Hb as [->|[->|[->|[->| ->]]]]; simpl in *; inversion Ev; subst v; clear Ev.
+      + eexists; eexists; (split; [reflexivity|split; [reflexivity|]]).
+        apply (arith_agree checked_add Z.add fadd); auto. intros; now apply add_agree.
+      + eexists; eexists; (split; [reflexivity|split; [reflexivity|]]).
+        apply (arith_agree checked_sub Z.sub fsub); auto. intros; now apply sub_agree.
+      + eexists; eexists; (split; [reflexivity|split; [reflexivity|]]).
+        apply (arith_agree checked_mul Z.mul fmul); auto. intros; now apply mul_agree.
+      + (* division *)
+        destruct nx as [a|fa], ny as [c|fc]; simpl in *;
+          try (eexists; eexists; (split; [reflexivity|split; [reflexivity|reflexivity]])).
+        pose proof (fine_of_Z a Fx) as Ha. pose proof (fine_of_Z c Fy) as Hc.
+        unfold checked_rem_euclid. destruct (c =? 0)%Z eqn:Ec; [eexists; eexists; (split; [reflexivity|split; [reflexivity|reflexivity]])|].
+        apply Z.eqb_neq in Ec.
+        destruct ((a =? i64_min) && (c =? -1))%Z; [eexists; eexists; (split; [reflexivity|split; [reflexivity|reflexivity]])|].
+        destruct (a mod Z.abs c =? 0)%Z eqn:Er; eexists; eexists; (split; [reflexivity|split; [reflexivity|]]); [|reflexivity].
+        simpl. symmetry. apply div_agree; auto. apply Z.eqb_eq in Er. now apply rem_euclid_zero.
+      + (* remainder *)
+        destruct nx as [a|fa], ny as [c|fc]; simpl in *;
+          try (eexists; eexists; (split; [reflexivity|split; [reflexivity|reflexivity]])).
+        pose proof (fine_of_Z a Fx) as Ha. pose proof (fine_of_Z c Fy) as Hc.
+        destruct (c =? 0)%Z eqn:Ec; eexists; eexists; (split; [reflexivity|split; [reflexivity|]]); [reflexivity|].
+        apply Z.eqb_neq in Ec. simpl. unfold wrapping_rem. symmetry. now apply mod_agree.
     - discriminate.
   Qed.
 End Trees.
